@@ -55,7 +55,14 @@ func (x *Exec) unflatten(st *State, t types.Type, prefix string, get func(path s
 		}
 		return sv
 	default:
-		return x.fromElem(st, get(prefix, t), t)
+		e := get(prefix, t)
+		if e.S == SInt {
+			// typing invariant of an integer-typed map value
+			if lo, hi := intRange(t); lo != nil {
+				st.Assume(And(Le(IntBig(lo), e), Le(e, IntBig(hi))))
+			}
+		}
+		return x.fromElem(st, e, t)
 	}
 }
 
@@ -136,16 +143,9 @@ func (x *Exec) rangeInit(st *State, fr *Frame, v *ssa.Range) Value {
 		mt := under(b.Obj.Typ).(*types.Map)
 		ks := x.elemSort(mt.Key())
 		ord := Fresh("ord", SArr(SInt, ks))
-		// ord enumerates the domain: ord[0..card) are pairwise distinct members, every member occurs
-		i := Const(fmt.Sprintf("i!q%d", x.nextQ()), SInt)
-		j := Const(fmt.Sprintf("j!q%d", x.nextQ()), SInt)
-		st.Assume(Forall([]*Term{i}, Implies(And(Le(IntLit(0), i), Lt(i, mc.Card)), Select(mc.Dom, Select(ord, i))), Select(ord, i)))
-		st.Assume(Forall([]*Term{i, j}, Implies(And(Le(IntLit(0), i), Lt(i, j), Lt(j, mc.Card)), Ne(Select(ord, i), Select(ord, j))), Select(ord, i), Select(ord, j)))
-		idx := App("ordidx."+ord.Name, SInt, Const("k!dummy", ks))
-		_ = idx
-		k := Const(fmt.Sprintf("k!q%d", x.nextQ()), ks)
-		inv := App("ordinv."+ord.Name, SInt, k)
-		st.Assume(Forall([]*Term{k}, Implies(Select(mc.Dom, k), And(Le(IntLit(0), inv), Lt(inv, mc.Card), Eq(Select(ord, inv), k))), Select(mc.Dom, k)))
+		// ord enumerates the domain in an arbitrary order (a bijection between [0,card) and the key set)
+		st.Assume(x.isPerm(ord, mc))
+		st.LastOrd, st.LastPos = ord, pos
 		return &IterVal{Map: b.Obj, Pos: pos, Ord: ord, KeyT: mt.Key()}
 	case *Term:
 		return &IterVal{Str: b, Pos: pos}
@@ -183,4 +183,50 @@ func (x *Exec) rangeNext(st *State, fr *Frame, v *ssa.Next) Value {
 		kv, rv = Int2BV(i, 64), Int2BV(r, 32)
 	}
 	return &TupleVal{Vs: []Value{ok, kv, rv}}
+}
+
+// isPerm: ord[0..card) enumerates exactly the keys of the map, each once (ordinv is its inverse).
+func (x *Exec) isPerm(ord *Term, mc *MapContent) *Term {
+	ks := ord.S.Elem
+	i := Const(fmt.Sprintf("i!q%d", x.nextQ()), SInt)
+	i2 := Const(fmt.Sprintf("i!q%d", x.nextQ()), SInt)
+	k := Const(fmt.Sprintf("k!q%d", x.nextQ()), ks)
+	inv := func(t *Term) *Term { return App("ordinv", SInt, ord, t) }
+	in := func(t *Term) *Term { return And(Le(IntLit(0), t), Lt(t, mc.Card)) }
+	return And(
+		Forall([]*Term{i}, Implies(in(i), Select(mc.Dom, Select(ord, i))), Select(ord, i)),
+		Forall([]*Term{i2}, Implies(in(i2), Eq(inv(Select(ord, i2)), i2)), Select(ord, i2)),
+		Forall([]*Term{k}, Implies(Select(mc.Dom, k), And(in(inv(k)), Eq(Select(ord, inv(k)), k))), Select(mc.Dom, k)),
+	)
+}
+
+// tlv-shaped maps: value struct {tag, length uint16; value []byte}
+func tlvLeaves(mc *MapContent) (tag, length, value *Term, ok bool) {
+	tag, ok1 := mc.Leaves[".tag"]
+	length, ok2 := mc.Leaves[".length"]
+	value, ok3 := mc.Leaves[".value"]
+	return tag, length, value, ok1 && ok2 && ok3
+}
+
+func tser(mc *MapContent, ord, lo, hi *Term) *Term {
+	t, l, v, _ := tlvLeaves(mc)
+	return App("tser", SBytes, t, l, v, ord, lo, hi)
+}
+
+// tlvWF: every entry is filed under its own tag and its length field equals the length of its value.
+func (x *Exec) tlvWF(mc *MapContent) *Term {
+	t, l, v, _ := tlvLeaves(mc)
+	k := Const(fmt.Sprintf("k!q%d", x.nextQ()), mc.Dom.S.Idx)
+	return Forall([]*Term{k}, Implies(Select(mc.Dom, k), And(Eq(Select(t, k), k), Eq(Select(l, k), Len(Select(v, k))), Le(IntLit(0), k), Lt(k, IntLit(65536)), Lt(Select(l, k), IntLit(65536)))), Select(mc.Dom, k))
+}
+
+func (x *Exec) mapEq(a, b *MapContent) *Term {
+	k := Const(fmt.Sprintf("k!q%d", x.nextQ()), a.Dom.S.Idx)
+	var eqs []*Term
+	for _, p := range sortedKeys(a.Leaves) {
+		eqs = append(eqs, Eq(Select(a.Leaves[p], k), Select(b.Leaves[p], k)))
+	}
+	da := And(Not(a.Nil), Select(a.Dom, k))
+	db := And(Not(b.Nil), Select(b.Dom, k))
+	return And(Eq(a.Card, b.Card), Forall([]*Term{k}, And(Eq(da, db), Implies(da, And(eqs...)))))
 }
